@@ -108,7 +108,8 @@ Next == IF Source = "enum"
 (* Records                                                                 *)
 (***************************************************************************)
 Out(v) == IF v.st = "ok" THEN (IF v.isq THEN [k |-> "q", q |-> v.q] ELSE [k |-> "t", t |-> v.t])
-          ELSE IF v.st = "mismatch" THEN [k |-> "raise"]
+          ELSE IF v.st = "mismatch" \/ (v.st = "mismatch_inv" /\ "inverse_dimension_operands" \notin OpenDevs)
+               THEN [k |-> "raise"]       \* (8b695be: sums across inverse dimensions are refused)
           ELSE [k |-> "skip"]
 Raise == [k |-> "raise"]
 BaseUnits == <<"m", "s", "g">>
@@ -162,7 +163,8 @@ LogInfo ==
       \* not a BooleanType) - section 8 tracks the python type because the callers depend on it
       devs |-> (IF pr.ok THEN CmpFeatures(pr.tree, 1).f ELSE {}) \cup (IF LTreeOK(mt) THEN mv.dev ELSE {}),
       tags |-> (IF pr.ok THEN CmpFeatures(pr.tree, 1).f ELSE {}) \cup (IF LTreeOK(mt) THEN mv.dev ELSE {})
-               \cup (IF LTreeOK(mt) /\ ~mv.num /\ mv.r # "E" /\ mv.pt \in {"np", "py"} THEN {"result_bare_bool"} ELSE {})]
+               \cup (IF LTreeOK(mt) /\ ~mv.num /\ mv.r # "E" /\ mv.pt \in {"np", "py"} THEN {"result_bare_bool"} ELSE {})
+               \cup (IF LTreeOK(mt) /\ ~mv.num /\ mv.r # "E" /\ mv.pt = "pyne" THEN {"result_bare_bool_ne"} ELSE {})]
 LogRecord(i) ==
   [mode |-> "log", id |-> idx, ci |-> ci, env |-> LogCfg(ci).env, s |-> s, cls |-> i.cls, itree |-> i.it, mtree |-> i.mt,
    ideal |-> i.ideal, mach |-> i.mout,
